@@ -265,6 +265,7 @@ type Exec struct {
 	in           *interpreter
 	Merged       int
 	forkSites    map[string]int
+	bootstrap    bool
 }
 
 func (ex *Exec) noteAbort(why string) {
